@@ -50,6 +50,8 @@ def stack_obligations(ctx):
     ctx.check(s.aug is None and s.guards == tm.TRUE, fi, "the store is a plain unconditional assignment (a copy, no arithmetic on the value)",
               line=s.stmt.lineno, role="pure-copy", expected="=", found=(s.aug or "=") + f" if {s.guards}")
     loops = s.loops
+    if any(not (isinstance(lp, ast.For) and isinstance(lp.target, ast.Name)) for lp in loops):
+        raise AnalysisError("stacking loops do not iterate plain index variables: outside the two recognised shapes")
     rngs = {}
     for lp in loops:
         if isinstance(lp, ast.For) and isinstance(lp.target, ast.Name):
@@ -104,3 +106,29 @@ def r3(ctx):
     from . import c04
     c04.r1(ctx)
     c04.r3(ctx)
+
+
+@rule("C10", "R4", "PURE", "stacking, splitting and padding depend on their arguments only (no module-level tables or caches)", floor=1)
+def r4(ctx):
+    ana = ctx.ana
+    from .c14 import module_state_writes
+    mod = ana.prog.modules.get("fast_ticc.data_preparation")
+    if mod is None:
+        raise AnalysisError("module fast_ticc.data_preparation not found")
+    writes = [(f, n, w) for f, n, w in module_state_writes(ana) if f.module is mod]
+    for f, n, w in writes:
+        ctx.fail(f, f"module-level state in the data-preparation helpers: {w}", line=getattr(n, "lineno", 0), role=f"module-state:{w}",
+                 expected="pure functions of (data, window size)")
+    reads = []
+    for f in [x for x in ana.prog.functions.values() if x.module is mod]:
+        locs = ana.res.local_names(f)
+        for n in ast.walk(f.node):
+            if isinstance(n, ast.Name) and isinstance(n.ctx, ast.Load) and n.id not in locs and n.id in mod.globals:
+                st = mod.globals[n.id]
+                if not (isinstance(st, ast.Assign) and isinstance(st.value, ast.Constant) and mod.global_assign_count.get(n.id, 0) == 1):
+                    reads.append((f, n))
+    for f, n in reads:
+        ctx.fail(f, f"`{n.id}` is a module-level variable read by a data-preparation helper (results would depend on earlier calls)",
+                 line=n.lineno, role=f"module-read:{n.id}", expected="no module-level mutable")
+    if not writes and not reads:
+        ctx.ok(mod.name, "no data-preparation helper reads or writes module-level mutable state", role="pure")
